@@ -143,4 +143,27 @@ CLAIMS = {
         "note": "Undecided: bit-identical values and h5py's own behaviour. Noted, not reported: Field's dtype slot is not restored "
                 "(int fields come back as float64 with equal values; Field equality ignores dtype).",
     },
+    "C11": {
+        "technique": "static analysis: composition table of the four transforms as term normal forms (shift/transform order, axes, "
+                     "s=shape), per-axis k-mesh terms with axis-tag coherence, symbolic centring/width check of each branch, "
+                     "prefix/suffix codec agreement (strip lengths vs the tested literals), guard rules for shape validation",
+        "level": _GEN + "For C11: forward = fftshift o fftn, inverse = ifftn o ifftshift over the spatial axes only (real variants "
+                 "shift all but the last axis); k-mesh faces are min/max of the (r)fftfreq of the same axis widened by half a "
+                 "spacing with len(freqs) cells, a single-cell axis is centred at zero with width 1/cell; names and units are "
+                 "renamed consistently and stripped by exactly the tested prefix/suffix; explicit inverse shapes are validated, the "
+                 "default real shape is even, the real-space mesh is re-centred; nvdim and unit are kept.",
+        "note": "Undecided: the DFT sum itself, Parseval/round-trip accuracy, linearity in floats. Trusted: scipy.fft conventions.",
+    },
+    "C14": {
+        "technique": "static analysis: who-may-write audit of _subregions, guard rules inside the validation loop with "
+                     "raise-after-store exclusion, constructor-keyword provenance of the stored regions, sibling rules for "
+                     "mesh-level transformations, selection clipping terms, is_aligned idiom, writer/reader agreement (JSON, HDF5)",
+        "level": _GEN + "For C14: only the setter writes _subregions, every candidate passes the inside / whole-cells / on-lattice "
+                 "tests before the single store, stored regions are fresh objects carrying the mesh's dims, units and tolerance, "
+                 "transformations apply the identical step to region and subregions, selections keep and clip the overlapping "
+                 "ones on the chosen axis, mesh[name] uses the subregion and the parent's cell, is_aligned compares cells then "
+                 "corner remainders, and both persistence formats write and re-validate the subregions.",
+        "note": "Undecided: alignment decisions at the tolerance, lattice membership of clipped subregions in floats. By design the "
+                "getter hands out the internal dict, so callers can bypass the setter (documented, not reported).",
+    },
 }
